@@ -76,7 +76,16 @@ RULE = ('PKIs over 5 LVS schema templates (site/admin/user/device, a flat varian
         'garbage key, other certificate served, key locator = KeyDigest, certificate missing while a validly signed '
         'schema-allowed Data one component longer exists [the simulated producer answers CanBePrefix Interests as a '
         'forwarder would], expired / not-yet-valid / ContentType!=KEY certificate [acceptance expected, refusal not '
-        'judged], packet named `/` [Checker.check raises IndexError]; EC P-256 and P-384), 1..3 validator instances (own anchor, '
+        'judged], packet named `/` [Checker.check raises IndexError], ALIAS: the signee names another SPELLING N\' of its '
+        'signer\'s certificate name N - the version or a numeric key id (`seq=` / `t=` / `v=` / `seg=` / `off=` key ids in 5/8 of '
+        'the cases) carried in another width (1/2/4/8 bytes, rarely 3/5): another name on the wire with the same Name.to_str - '
+        'with nothing retrievable under N\' (absent / Nack / timeout / the producer answers with the certificate named N), or '
+        'ANOTHER certificate with another key published under N\' and the signee signed with that key (valid chain) or with '
+        'N\'s key (no chain), while a sibling packet signed through N is validated by the SAME instance first (and sometimes '
+        'after); the simulated producer and the oracle key the world by an injective URI of the wire name; '
+        'EC P-256 and P-384), the key storage left to the default argument or passed explicitly (a MemoryKeyStorage, an '
+        'EmptyKeyStorage [oracle only], one MemoryKeyStorage given to two instances with the same schema and anchor [oracle '
+        'only]), 1..3 validator instances (own anchor, '
         'rival anchor, other schema, a schema whose user function raises TypeError on /site/vdoc/... names, '
         'unbuildable ones) and 2..6 validations in random order, plus every permutation of small step sets; non-trivial = at '
         'least one certificate fetch or acceptance; distinct = distinct case descriptions. Stream `lvs` (c14_lvs.py): generated '
@@ -273,7 +282,47 @@ def spec_anchor_matches(schema, anchor_uri):
 def fullname(o):
     if o['kind'] in ('pkt', 'blob'):       # blob = a Data carrying key bits under a free name (not a certificate name)
         return o['name']
-    return f"{o['name']}/{o['issuer']}/{VERSION}"
+    return f"{o['name']}/{o['issuer']}/{o.get('ver', VERSION)}"
+
+
+# --- alternate spellings of a name component (a DIFFERENT name on the wire that Name.to_str prints alike) ----------
+NUMTYPES = {'seg': 0x32, 'off': 0x34, 'v': 0x36, 't': 0x38, 'seq': 0x3A}
+_UNRESERVED = set(b'ABCDEFGHIJKLMNOPQRSTUVWXYZabcdefghijklmnopqrstuvwxyz0123456789-._~')
+
+
+def _generic(typ, val):
+    """`<type>=<escaped value>`: the URI form that says type and value bytes literally"""
+    return '%d=' % typ + ''.join(chr(b) if b in _UNRESERVED else '%%%02X' % b for b in val)
+
+
+def respell(comp_uri, rng):
+    """a typed-number component (`v=5`) with its number in another width (1 / 2 / 4 / 8 bytes, rarely 3 / 5): other bytes
+    on the wire, i.e. ANOTHER name, which the number shorthand of the URI prints the same"""
+    kind, n = comp_uri.split('=')
+    n = int(n)
+    minw = 1 if n < 1 << 8 else 2 if n < 1 << 16 else 4 if n < 1 << 32 else 8
+    ws = [w for w in (1, 2, 4, 8) if w > minw] * 4 + [w for w in (3, 5) if w > minw]
+    return _generic(NUMTYPES[kind], n.to_bytes(rng.choice(ws), 'big'))
+
+
+def _uri(name):
+    """an INJECTIVE URI of a wire name (Name.to_str prints `36 01 05` and `36 08 00..05` both as v=5): a component
+    whose library URI does not read back as the same bytes is written in the generic form"""
+    from ndn.encoding import Component, parse_tl_num
+    out = []
+    for c in name:
+        c = bytes(c)
+        try:
+            u = Component.to_str(c)
+            ok = bytes(Component.from_str(u)) == c
+        except Exception:       # noqa
+            ok = False
+        if not ok:
+            typ, n1 = parse_tl_num(c)
+            _, n2 = parse_tl_num(c, n1)
+            u = _generic(typ, c[n1 + n2:])
+        out.append(u)
+    return '/' + '/'.join(out)
 
 
 def kl_name(case, o):
@@ -423,7 +472,7 @@ def build_wire(case, oid):
                                    _content_bits(o), signer=signer))
     elif o['kind'] == 'anchor':
         name, wire = self_sign(o['name'], _content_bits(o), signer)
-        assert enc.Name.to_str(name) == fullname(o), (enc.Name.to_str(name), fullname(o))
+        assert _uri(name) == fullname(o), (_uri(name), fullname(o))
         wire = bytes(wire)
     else:
         odd = o.get('odd')
@@ -437,11 +486,15 @@ def build_wire(case, oid):
         if odd == 'ctype':       # new_cert hard-codes ContentType.KEY: substitute BLOB while this one certificate is built
             sv2.MetaInfo = lambda content_type=None, freshness_period=None, **kw: real_meta(
                 content_type=enc.ContentType.BLOB, freshness_period=freshness_period, **kw)
+        real_ver = sv2.Component.from_version
+        if o.get('ver'):         # new_cert appends from_version(timestamp()): this certificate's version is spelled as given
+            sv2.Component.from_version = lambda _v, _u=o['ver']: enc.Component.from_str(_u)
         try:
             name, wire = derive_cert(o['name'], o['issuer'], _content_bits(o), signer, start, secs)
         finally:
             sv2.MetaInfo = real_meta
-        assert enc.Name.to_str(name) == fullname(o), (enc.Name.to_str(name), fullname(o))
+            sv2.Component.from_version = real_ver
+        assert _uri(name) == fullname(o), (_uri(name), fullname(o))
         wire = bytes(wire)
     _WIRES[key] = wire
     return wire
@@ -505,6 +558,8 @@ def run_impl(case):
         names = {oid: fullname(objs[oid]) for oid in objs}
         out = {'insts': [], 'steps': [], 'names': names}
         validators = []
+        shared = {}
+        from ndn.security.validator import cascade_validator as cv
         for inst in case['insts']:
             schema = case['schemas'][inst['schema']]
             checker = get_checker(schema, inst.get('userfns', True))
@@ -521,8 +576,16 @@ def run_impl(case):
                              else _real_check(checker, names[oid], kl_name(case, objs[oid])) for oid in sorted(objs)],
                    'token': LC.enc_model(checker.model),
                    'env': sorted(LC.mods()[6]) if inst.get('userfns', True) else []}
+            kw = {}
+            st = inst.get('storage')      # None: the default argument; else an explicitly passed storage object
+            if st == 'mem':
+                kw['storage'] = cv.MemoryKeyStorage()
+            elif st == 'empty':
+                kw['storage'] = cv.EmptyKeyStorage()
+            elif st:                      # 'share…': ONE MemoryKeyStorage passed to several instances (same schema and anchor)
+                kw['storage'] = shared.setdefault(st, cv.MemoryKeyStorage())
             try:
-                v = rig.loop.call_now(lvs_validator, checker, rig.app, wires[inst['anchor']])
+                v = rig.loop.call_now(lambda: lvs_validator(checker, rig.app, wires[inst['anchor']], **kw))
                 rec['built'] = 'ok'
             except Exception as e:       # noqa - the class is the observation
                 v = None
@@ -557,7 +620,7 @@ def run_impl(case):
                     continue
                 for w in new:
                     iname, ipar, _, _ = enc.parse_interest(w)
-                    uri = enc.Name.to_str(iname)
+                    uri = _uri(iname)           # injective: the producer serves wire names, not their URI print
                     if not exhausted:       # the Interest as the simulated producer receives it
                         fetched.append([uri, int(bool(ipar.can_be_prefix)), int(bool(ipar.must_be_fresh)), ipar.lifetime])
                     wo = case['world'].get(uri)
@@ -628,6 +691,8 @@ def model_line(case, impl):
     `Ndn.Lvs.check`, the anchor's matched rules, `root_of_trust`, `validate_user_fns` and the construction itself."""
     if LV.is_lvs(case):
         return LV.model_line(case, impl)
+    if any(i.get('storage') not in (None, 'mem') for i in case['insts']):
+        return None        # EmptyKeyStorage / one storage shared by several instances: the fetch log differs; oracle only
     oids, names, kids = _ids(case, impl)
     idx = {oid: i for i, oid in enumerate(oids)}
     st = {'hmac': 'h', 'rsa': 'r', 'ecdsa': 'e', 'ed25519': 'd', 'other': 'o'}
@@ -767,10 +832,28 @@ def tags(case, impl):
         if o.get('by'):
             t.append('keytype:' + ktype(o['by']))
     t.append('family:' + case.get('family', '?'))
+    if case.get('alias'):
+        t.append('alias:' + case['alias'])
+        seen = set()
+        for (ii, oid), st in zip(case['steps'], impl['steps']):      # the alias-naming packet after / before its sibling
+            o = case['objs'][oid]
+            if o['kind'] == 'pkt' and o['name'].endswith('20') and st['verdict'] == 'A':
+                seen.add(ii)
+            elif ii in seen and st['verdict'] in 'AR' and o['kind'] == 'pkt':
+                t.append('alias:after-sibling-accepted')
+                break
+    for i in case['insts']:
+        t.append('storage:' + str(i.get('storage') or 'default'))
+    if any('=' in o['name'].rsplit('/', 1)[-1] for o in case['objs'].values() if o['kind'] == 'cert'):
+        t.append('numeric-key-id')
     return t
 
 
 # ------------------------------------------------------------------------------------- cases
+def _pool_ids():
+    return set([f'ec{i}' for i in range(14)] + [f'rsa{i}' for i in range(4)] + [f'ed{i}' for i in range(5)])
+
+
 class _Alloc:
     def __init__(self, rng):
         self.rng = rng
@@ -790,9 +873,11 @@ class _Alloc:
 class _Pki:
     """one hierarchy: a site, a root key, entity certificates created on demand"""
 
-    def __init__(self, case, rng, alloc, site, tag, keytype=None):
+    def __init__(self, case, rng, alloc, site, tag, keytype=None, numkid=None):
         self.case, self.rng, self.alloc, self.site, self.tag = case, rng, alloc, site, tag
         self.keytype = keytype
+        self.numkid = numkid          # key ids are typed numbers (`seq=7`, `t=7`, ...) instead of generic components
+        self.nkid = (ord(tag) - 97) * 60
         self.root_key = alloc.key(keytype)
         self.anchor = self.add({'kind': 'anchor', 'name': f'/{site}/KEY/{tag}r', 'issuer': 'self', 'key': self.root_key,
                                 'by': self.root_key, 'mode': 'normal'}, self_kl=True)
@@ -825,11 +910,24 @@ class _Pki:
             name, issuer, parent = f'/{s}/grp/grp/KEY/{t}g{ids[0]}', 'i', self.anchor
         elif kind == 'ga':
             name, issuer, parent = f'/{s}/grp/grp/KEY/{t}h{ids[0]}', 'i', self.cert('gb', ids)
+        if self.numkid:
+            self.nkid += 1
+            name = name.rsplit('/', 1)[0] + f'/{self.numkid}={self.nkid}'
         key = self.alloc.key(self.keytype)
         pk = self.case['objs'][parent]['key']
         oid = self.add({'kind': 'cert', 'name': name, 'issuer': issuer, 'key': key, 'by': pk, 'kl': parent, 'mode': 'normal'})
         self.ent[k] = oid
         return oid
+
+    def signed_by(self, oid, n):
+        """a packet signed DIRECTLY by this certificate (or the anchor), or None"""
+        if oid == self.anchor:
+            return self.packet('pub', [], n)
+        for k, v in self.ent.items():
+            if v == oid:
+                kind = {'admin': 'note', 'user': 'doc', 'fuser': 'fdoc', 'dev': 'reading', 'ga': 'msg'}.get(k[0])
+                return self.packet(kind, list(k[1:]), n) if kind else None
+        return None
 
     def packet(self, kind, ids, n):
         s = self.site
@@ -861,7 +959,7 @@ def _chain_of(case, oid):
         out.append(o['kl'])
 
 
-DEVIATIONS = ['none', 'none', 'shape', 'skip', 'forged', 'subst', 'missing', 'nack', 'timeout', 'unsigned', 'loop',
+DEVIATIONS = ['none', 'none', 'alias', 'alias', 'alias', 'shape', 'skip', 'forged', 'subst', 'missing', 'nack', 'timeout', 'unsigned', 'loop',
               'astype', 'hmac', 'emptykey', 'garbagekey', 'wrongdata', 'prefixdata', 'prefixdata', 'oddcert', 'emptyname']
 
 
@@ -958,6 +1056,35 @@ def _inject(case, rng, alloc, pki, pkt_oid, dev):
                  'mode': signer['mode']})
     elif dev == 'oddcert':
         signer['odd'] = rng.choice(['expired', 'future', 'ctype'])
+    elif dev == 'alias':
+        # the signee names ANOTHER SPELLING N' of its signer's certificate name N: a typed-number component (the version,
+        # or a numeric key id) carried in another width - other bytes on the wire, another name, the same `Name.to_str`.
+        # Nothing is retrievable under N' (absent / Nack / timeout / the producer answers with the certificate named N), or
+        # ANOTHER certificate (another key) is published under N' and the signee is signed with that key (a valid chain
+        # through N') or with the key of N (no chain).  A sibling packet signed through N is validated by the same
+        # instance (the generator puts it first in most histories), so N's key is in the instance's storage.
+        how = rng.choice(['missing', 'missing', 'nack', 'timeout', 'canon', 'twin-good', 'twin-good', 'twin-bad'])
+        twin = {'kind': 'cert', 'name': signer['name'], 'issuer': signer['issuer'], 'key': signer['key'],
+                'by': signer['by'], 'kl': signer['kl'], 'mode': signer['mode']}
+        for k in ('ver', 'odd'):
+            if k in signer:
+                twin[k] = signer[k]
+        last = signer['name'].rsplit('/', 1)[1]
+        if '=' in last and rng.random() < 0.5:
+            twin['name'] = signer['name'].rsplit('/', 1)[0] + '/' + respell(last, rng)
+        else:
+            twin['ver'] = respell(signer.get('ver', VERSION), rng)
+        if how.startswith('twin'):
+            twin['key'] = alloc.key(ktype(signer['key']) if signer['key'] in _pool_ids() else None)
+        toid = pki.add(twin, serve=how.startswith('twin'))
+        if how in ('nack', 'timeout'):
+            case['world'][fullname(twin)] = ['N'] if how == 'nack' else ['T']
+        elif how == 'canon':
+            case['world'][fullname(twin)] = ['D', chain[i + 1]]
+        signee['kl'] = toid
+        if how == 'twin-good':
+            signee['by'] = twin['key']
+        case['alias'] = how
     return dev, i
 
 
@@ -969,7 +1096,8 @@ def _gen(rng, family='random'):
     main_t = 'amb' if amb else rng.choice(['full', 'full', 'full', 'loose', 'flat'])
     keytype = rng.choice([None, None, None, 'ec', 'ec', 'rsa', 'ed'])
     case['schemas']['S'] = TEMPLATES[main_t](site)
-    h1 = _Pki(case, rng, alloc, site, 'a', keytype)
+    numkid = rng.choice([None, None, None, 'seq', 't', 'v', 'seg', 'off'])
+    h1 = _Pki(case, rng, alloc, site, 'a', keytype, numkid)
     pkts = []
     n_pk = rng.choice([1, 2, 2, 3])
     adm, usr, dv = rng.choice(['al', 'bo']), rng.choice(['ua', 'ub']), rng.choice(['d1', 'd2'])
@@ -989,16 +1117,22 @@ def _gen(rng, family='random'):
     if dev == 'prefixdata' or rng.random() < 0.15:
         case['schemas']['S'] = with_bundles(case['schemas']['S'])
     target = rng.choice(pkts)
+    sibling = None
     if dev != 'none':
+        chain0 = _chain_of(case, target)
         dev, link = _inject(case, rng, alloc, h1, target, dev)
         case['deviation_link'] = link
+        if dev == 'alias':
+            sibling = h1.signed_by(chain0[link + 1], 20)
+            if sibling is not None:
+                pkts.append(sibling)
     case['deviation'] = dev
     # instances
     case['insts'].append({'schema': 'S', 'anchor': h1.anchor, 'userfns': True})
     r = rng.random()
     h2 = None
     if r < 0.35:       # rival anchor on the same site and schema
-        h2 = _Pki(case, rng, alloc, site, 'b', keytype)
+        h2 = _Pki(case, rng, alloc, site, 'b', keytype, numkid)
         case['insts'].append({'schema': 'S', 'anchor': h2.anchor, 'userfns': True})
     elif r < 0.55:     # another schema on the same site, same anchor
         alt = rng.choice([t for t in ('full', 'loose', 'flat') if t != main_t])
@@ -1007,7 +1141,7 @@ def _gen(rng, family='random'):
     elif r < 0.65:     # another site
         site2 = 'sc'
         case['schemas']['S3'] = TEMPLATES[rng.choice(['full', 'flat'])](site2)
-        h2 = _Pki(case, rng, alloc, site2, 'c', keytype)
+        h2 = _Pki(case, rng, alloc, site2, 'c', keytype, numkid)
         case['insts'].append({'schema': 'S3', 'anchor': h2.anchor, 'userfns': True})
     if h2 is not None and rng.random() < 0.6:
         t2 = case['schemas'][case['insts'][-1]['schema']]
@@ -1048,9 +1182,21 @@ def _gen(rng, family='random'):
             bad['mode'] = 'hmac'
         oid = h1.add(bad, self_kl=True, serve=False)
         case['insts'].append({'schema': 'S', 'anchor': oid, 'userfns': True})
+    # an explicitly passed key storage instead of the default argument
+    r = rng.random()
+    if r < 0.12:
+        case['insts'][0]['storage'] = 'mem'
+    elif r < 0.16:
+        case['insts'][0]['storage'] = 'empty'
+    elif r < 0.21:     # a second instance with the same schema and anchor, both given ONE storage object
+        case['insts'][0]['storage'] = 'share1'
+        case['insts'].append(dict(case['insts'][0]))
     # steps
     ni = len(case['insts'])
-    for _ in range(rng.randint(2, 6)):
+    if sibling is not None:
+        # the same instance validates a packet through N, then the one that names N' (sometimes N' first as well)
+        case['steps'] += ([[0, target]] if rng.random() < 0.25 else []) + [[0, sibling], [0, target]]
+    for _ in range(rng.randint(2, 6) - (2 if sibling is not None else 0)):
         case['steps'].append([rng.randrange(ni), rng.choice(pkts)])
     if ni > 1 and rng.random() < 0.6:      # the same packet through two instances, both orders over the run
         p = rng.choice(pkts)
